@@ -625,13 +625,15 @@ pub fn sim(_args: &[String]) -> i32 {
                                 let _ = hub.send(other, node, data);
                             }
                             // transaction id with one bit flipped in the message part / the action part
-                            "wrongmid" | "wrongaid" | "shorttid" => {
+                            "wrongmid" | "wrongaid" | "shorttid" | "longtid" => {
                                 if let Ok(mut m) = Message::decode(&data) {
                                     let n = m.transaction_id.len();
                                     if n == 8 {
                                         match kind.as_str() {
                                             "wrongmid" => m.transaction_id[7] ^= 1,
                                             "wrongaid" => m.transaction_id[2] ^= 1,
+                                            // the right 8 bytes followed by one more
+                                            "longtid" => m.transaction_id.push(0),
                                             _ => m.transaction_id.truncate(7),
                                         }
                                     }
